@@ -28,7 +28,7 @@ CAT_TIERS = {"quick": {"MaxBoxes": 4, "MaxWidth": 1, "states": 2000, "sim_num": 
 # the two-generator machine (split, state and their daggers) is explored deeper: ties, longer normalisations
 TIE_TIERS = {"quick": {"MaxBoxes": 5, "MaxWidth": 2, "states": 600, "sim_num": 40, "sim_depth": 8, "sim_MaxBoxes": 6, "sim_MaxWidth": 3,
                        "spiral_cups": 2, "spiral_walks": 2, "spiral_depth": 4},
-             "thorough": {"MaxBoxes": 6, "MaxWidth": 3, "states": 1500, "sim_num": 300, "sim_depth": 12, "sim_MaxBoxes": 8, "sim_MaxWidth": 3,
+             "thorough": {"MaxBoxes": 5, "MaxWidth": 3, "states": 1500, "sim_num": 150, "sim_depth": 10, "sim_MaxBoxes": 6, "sim_MaxWidth": 3,
                           "spiral_cups": 2, "spiral_walks": 2, "spiral_depth": 4}}
 # bounds of the rigid machine (its signature has 13 generators and as many daggers)
 RIGID_TIERS = {"quick": {"MaxBoxes": 2, "MaxWidth": 3, "states": 220, "sim_num": 80, "sim_depth": 8, "sim_MaxBoxes": 4, "sim_MaxWidth": 4},
